@@ -201,7 +201,7 @@ def _worker(args):
     return r
 
 
-def sweep(ctx, tool, n_total=7000, maxops=100, procs=14):
+def sweep(ctx, tool, n_total=5000, maxops=100, procs=14):
     """long histories on the real jsondb -> monitor (python) + extracted model (correspondence), in worker processes"""
     from concurrent.futures import ProcessPoolExecutor
     from props import C06
